@@ -139,3 +139,10 @@ package connlist
 //@   requires md != nil && connsOK(conns)
 //@   modifies *
 //@   ensures [C09] reset: saveIPConns ==> ipMapsOfCall(md.ipMaps, conns)
+
+// returns the address of a composite literal (assumed, not verified: the loops that fill the port sets are not under contract)
+//@ func GetConnectionSetFromP2PConnection
+//@   trusted
+//@   requires c != nil
+//@   modifies *
+//@   ensures [C04] nonnil: res != nil
